@@ -222,6 +222,9 @@ def cell_tokens(arr):
 
 def val_wire(arr):
     np = _np()
+    if not isinstance(arr, (np.ndarray, np.generic, int, float, bool, str)):
+        # never np.asarray() an arbitrary object: an Atoms is an endless nested sequence for numpy
+        raise TypeError('a property value was expected, got %s' % type(arr).__name__)
     arr = np.asarray(arr)
     return ' '.join(['V', dt_token(arr), str(arr.ndim)] + [str(d) for d in arr.shape] + cell_tokens(arr))
 
@@ -358,9 +361,11 @@ def op_line(op, W):
         if k == 'natypes':
             return f"op natypes {m[op['o']]}"
         if k == 'mksys':
-            return ' '.join([f"op mksys {m[op['o']]}", cm.frs(op['box']), str(len(op['pbc']))]
+            x = bool(op.get('scale') or op.get('safecopy'))
+            return ' '.join([f"op {'mksysx' if x else 'mksys'} {m[op['o']]}", cm.frs(op['box']), str(len(op['pbc']))]
                             + ['1' if b else '0' for b in op['pbc']]
-                            + [syms_wire(op.get('symbols')), masses_wire(op.get('masses'))])
+                            + [syms_wire(op.get('symbols')), masses_wire(op.get('masses'))]
+                            + (['1' if op.get('scale') else '0', '1' if op.get('safecopy') else '0'] if x else []))
         if k in ('symget', 'massget', 'snatypes', 'satypes', 'scomp'):
             return f"op {k} {m[op['s']]}"
         if k == 'sstr':              # str(system) reads natoms, natypes, symbols, pbc: the model's natypes read
@@ -446,6 +451,19 @@ def pbc_form(op):
     return v
 
 
+def scribble(arr):
+    """overwrite a caller-owned array after it was handed to an accessor that promises to copy."""
+    np = _np()
+    if isinstance(arr, np.ndarray) and arr.size and arr.flags.writeable:
+        k = arr.dtype.kind
+        if k in 'iuf':
+            arr[...] = 7
+        elif k == 'b':
+            arr[...] = ~arr
+        elif k == 'U':
+            arr[...] = 'zz'
+
+
 def exec_real(op, W):
     """run the operation on the real objects.  Returns the canonical reply string (model format with
     ids removed) and the list of (kind, handle, object) created."""
@@ -465,7 +483,13 @@ def exec_real(op, W):
                 kw['pos'] = lit_arg(op['pos'])
             for kk, v in op.get('extra', []):
                 kw[kk] = lit_arg(v)
+            if op.get('safecopy'):
+                kw['safecopy'] = True
             a = am.Atoms(**kw)
+            if op.get('safecopy'):
+                # safecopy=True promises copies: the caller goes on using (here: overwriting) its own arrays
+                for v in kw.values():
+                    scribble(v)
             created.append(('a', 'a%d' % op['id'], a))
             rep = 'ok o'
         elif k == 'setv':
@@ -497,7 +521,9 @@ def exec_real(op, W):
             r = S[op['s']].atoms_prop()
             rep = ' '.join(['ok k', str(len(r))] + list(r))
         elif k == 'pset':
-            A[op['o']].prop(key=op['key'], **ix_kw(op), value=lit_arg(op['val']))
+            val = lit_arg(op['val'])
+            A[op['o']].prop(key=op['key'], **ix_kw(op), value=val)
+            scribble(val)       # prop() stores a COPY of the value: the caller's array is the caller's to reuse
             rep = 'ok'
         elif k == 'pseta':
             A[op['o']].prop(**ix_kw(op), value=A[op['src']])
@@ -540,6 +566,13 @@ def exec_real(op, W):
             rep = 'ok os'
         elif k == 'natypes':
             rep = 'ok n %d' % A[op['o']].natypes
+        elif k == 'ainfo':      # the small observers of Atoms: len(), natoms, atypes, str()
+            a = A[op['o']]
+            str(a)
+            rep = 'ok i %d %d %s' % (len(a), a.natoms, ','.join(str(int(t)) for t in a.atypes))
+        elif k == 'sinfo':      # ... and of System (natypes / symbols are operations of their own)
+            y = S[op['s']]
+            rep = 'ok i %d %d %d' % (len(y), y.natoms, 1 if any(y.atoms is a for a in A.values()) else 0)
         elif k == 'mksys':
             b = op['box']
             box = am.Box(vects=np.array(b[:9], dtype=float).reshape(3, 3), origin=np.array(b[9:], dtype=float))
@@ -548,7 +581,13 @@ def exec_real(op, W):
                 kw['symbols'] = tuple_form(op, 'symbols')
             if op.get('masses') is not None:
                 kw['masses'] = tuple_form(op, 'masses')
+            if op.get('scale'):
+                kw['scale'] = True
+            if op.get('safecopy'):
+                kw['safecopy'] = True
             s = am.System(atoms=A[op['o']], box=box, pbc=pbc_form(op), **kw)
+            if op.get('safecopy'):
+                created.append(('a', 'a%d' % op['id'], s.atoms))
             created.append(('s', 's%d' % op['id'], s))
             W.box['s%d' % op['id']] = list(op['box'])
             rep = 'ok os'
@@ -591,6 +630,8 @@ def exec_real(op, W):
             kw = {}
             if op.get('symbols') is not None:
                 kw['symbols'] = list(op['symbols'])
+            if op.get('safecopy'):
+                kw['safecopy'] = True
             s = S[op['s']].atoms_extend(val, scale=bool(op['scale']), **kw)
             created.append(('a', 'a%d' % op['id'], s.atoms))
             created.append(('s', 's%d' % op['id'], s))
@@ -841,6 +882,8 @@ def gen_new(rng, k, nmax=6):
         shape = [n] + trail if c < 0.7 else ([] if c < 0.85 else [1] + trail)
         extra.append([kk, gen_lit(rng, dt, shape)])
     op['extra'] = extra
+    if rng.random() < 0.15:
+        op['safecopy'] = True
     return op
 
 
@@ -984,6 +1027,12 @@ def with_forms(rng, op, p=0.3):
             op[field + '_as'] = 'bare' if (len(v) == 1 and v[0] is not None and rng.random() < 0.7) else 'tuple'
     if op.get('pbc') is not None and rng.random() < p:
         op['pbc_as'] = rng.choice(['tuple', 'int', 'np'])
+    if op['op'] == 'mksys':
+        # System(..., scale=True): the atoms' positions are box-relative; safecopy=True: built on a deep copy
+        if rng.random() < 0.2:
+            op['scale'] = True
+        if rng.random() < 0.2:
+            op['safecopy'] = True
     return op
 
 
@@ -1184,7 +1233,7 @@ def gen_op(rng, W, k, malformed=0.12):
             val = ['i', 1]
         else:
             val = ['a', rng.choice(list(A))]
-        return {'op': 'sext', 's': sh, 'value': val, 'scale': scale,
+        return {'op': 'sext', 's': sh, 'value': val, 'scale': scale, 'safecopy': rng.random() < 0.2,
                 'symbols': gen_syms(rng, 0, 4) if rng.random() < 0.3 else None, 'id': k}
     if kind == 'dcopy':
         return {'op': 'dcopy', 'o': h, 'id': k}
@@ -1268,7 +1317,7 @@ def step_both(drv, W, op, idx, stats=None):
     if mrep == 'err:format':
         raise cm.InfraError(f'driver rejected the line as malformed: {line[:300]}')
     mcanon, newids = canon_model_reply(mrep)
-    if op['op'] == 'mksys':
+    if op['op'] == 'mksys' and not op.get('safecopy'):
         newids = newids[1:]
     rrep, created = exec_real(op, W)
     if stats is not None:
@@ -1285,7 +1334,11 @@ def step_both(drv, W, op, idx, stats=None):
         (W.atoms if kind == 'a' else W.syss)[hname] = obj
         W.mid[hname] = mid
     mdump = drv.ask(dump_line(W))
-    rdump = dump_real(W)
+    try:
+        rdump = dump_real(W)
+    except Exception as e:      # noqa: BLE001 - an implementation whose state cannot even be read is an observation
+        raise Mismatch('state:' + op['op'], f"op #{idx} {op['op']}: reading the state of the live objects raised "
+                       f'{type(e).__name__}: {e}', idx)
     if mdump != rdump:
         if near_tokens(rdump, mdump):
             raise Inexact()
@@ -1362,6 +1415,8 @@ def correspond(ctx):
 
     def stats(op, rrep):
         name = op['op'] + (':scaled' if op['op'] in ('spget', 'spgeta') and op.get('scale') else '')
+        if op['op'] in ('mksys', 'new', 'sext'):
+            name += (':scale' if op.get('scale') and op['op'] == 'mksys' else '') + (':safecopy' if op.get('safecopy') else '')
         kinds[name] = kinds.get(name, 0) + 1
         if 'ix' in op:
             ix = op['ix']
@@ -1753,8 +1808,17 @@ def oracle_apply(op, O, OS):
     elif k == 'mksys':
         ms = op.get('masses') or []
         sy = op['symbols'] if op.get('symbols') is not None else [None] * len(ms)
-        OS['s%d' % op['id']] = new_osys(op['o'], [Fraction(x) for x in op['box']], o_natypes(O[op['o']]), sy, ms,
-                                         op['pbc'])
+        ah = op['o']
+        if op.get('safecopy'):               # the system is built on a deep copy: the given atoms stay as they are
+            ah = 'a%d' % op['id']
+            O[ah] = O[op['o']].clone_rows(range(O[op['o']].n))
+        box = [Fraction(x) for x in op['box']]
+        OS['s%d' % op['id']] = new_osys(ah, box, o_natypes(O[ah]), sy, ms, op['pbc'])
+        if op.get('scale'):                  # the positions handed in are box-relative: overwritten by their Cartesian image
+            cls, _, w = O[ah].meta['pos']
+            for r in O[ah].recs:
+                r['pos'] = tuple(o_cast(cls, w, c) for c in o_rtc_row(box, r['pos']))
+            written.append((ah, 'pos'))
     elif k == 'symset':
         y = OS[op['s']]
         y.set_symbols(o_natypes(O[y.atoms_h]), op['symbols'])
@@ -1767,6 +1831,12 @@ def oracle_apply(op, O, OS):
         pass
     elif k == 'natypes':
         out = ('ok n %d' % o_natypes(O[op['o']]), None)
+    elif k == 'ainfo':
+        o = O[op['o']]
+        out = ('ok i %d %d %s' % (o.n, o.n, ','.join(str(t + 1) for t in range(o_natypes(o)))), None)
+    elif k == 'sinfo':
+        o = O[OS[op['s']].atoms_h]
+        out = ('ok i %d %d 1' % (o.n, o.n), None)
     elif k == 'pbcset':
         OS[op['s']].pbc = [bool(b) for b in op['pbc']]
     elif k in ('pkeys', 'spkeys'):
@@ -1897,7 +1967,7 @@ def check_clauses(op, W, O, OS, pre_arrays, out, created):
             for (h, key, arr) in W.live_arrays():
                 if np.shares_memory(r, arr):
                     raise Violation('alias:prop', f'prop({op["key"]!r}) returned an array sharing memory with {h}.{key}')
-    copying = k in ('pgeta', 'spgeta', 'dcopy', 'sdcopy', 'exti', 'exta', 'sext') or \
+    copying = k in ('pgeta', 'spgeta', 'dcopy', 'sdcopy', 'exti', 'exta', 'sext') or (k == 'mksys' and op.get('safecopy')) or \
         (k in ('geti', 'ixget') and op['ix'][0] in ('L', 'K'))
     if copying:
         for kind, hname, obj in created:
@@ -2176,6 +2246,14 @@ def gen_refusal(rng, W, O, OS, k, why=None):
         wrong = [cnt, 2] if trail != [2] else [cnt, 4]
         if trail == [3, 3]:
             wrong = [cnt, 3, 2]
+        if rng.random() < 0.5 and cnt >= 2:
+            # the right NUMBER of cells in the wrong arrangement (a lenient reshape would scramble rows)
+            if trail == []:
+                wrong = [cnt, 1]
+            elif trail == [3] and cnt != 3:
+                wrong = rng.choice([[3, cnt], [cnt * 3]])
+            elif trail == [3, 3]:
+                wrong = rng.choice([[cnt, 9], [cnt * 3, 3]] if cnt != 3 else [[cnt, 9]])
         if rng.random() < 0.5:
             op = {'op': 'pset', 'o': h, 'key': key, 'ix': ix, 'val': gen_lit(rng, cls, wrong, key)}
         else:
@@ -2255,6 +2333,8 @@ def gen_valid_op(rng, W, O, OS, k):
             trail = rng.choice(TRAILS)
             extra.append([kk, gen_lit(rng, dt, rng.choice([[n] + trail, [n] + trail, [1] + trail]))])
         op['extra'] = extra
+        if rng.random() < 0.15:
+            op['safecopy'] = True
         return op
     if len(A) <= 6 and rng.random() < 0.04:
         tw = gen_twin(rng, A[rng.choice(list(A))], k)
@@ -2279,10 +2359,11 @@ def gen_valid_op(rng, W, O, OS, k):
     if n == 0:
         return gen_empty_op(rng, W, O, h, k)
     kinds = ['setv'] * 8 + ['pget'] * 5 + ['pgeta'] * 3 + ['pset'] * 9 + ['pseta'] * 3 + ['geti'] * 7 + ['seti'] * 5 \
-        + ['patype'] * 5 + ['exti'] * 3 + ['exta'] * 5 + ['dcopy'] * 2 + ['mksys'] * 5 + ['natypes'] * 2 + ['df'] * 3
+        + ['patype'] * 5 + ['exti'] * 3 + ['exta'] * 5 + ['dcopy'] * 2 + ['mksys'] * 5 + ['natypes'] * 2 + ['df'] * 3 \
+        + ['ainfo'] * 2
     if S:
         kinds += ['symget', 'symset', 'massget', 'massset', 'snatypes', 'pbcset'] * 2 + ['satypes', 'scomp', 'sstr'] \
-            + ['sdf'] * 4 + ['spget'] * 6 + ['spgeta'] * 8 + ['spset'] * 5 + ['spseta'] * 3 + ['sext'] * 6 + ['ixget'] * 5 \
+            + ['sinfo'] + ['sdf'] * 4 + ['spget'] * 6 + ['spgeta'] * 8 + ['spset'] * 5 + ['spseta'] * 3 + ['sext'] * 6 + ['ixget'] * 5 \
             + ['ixset'] * 4 + ['sdcopy'] * 2 + ['spkeys']
     kind = rng.choice(kinds)
     sh = None
@@ -2313,7 +2394,7 @@ def gen_valid_op(rng, W, O, OS, k):
         data[rng.randrange(n)] = bad
         return {'op': 'setv', 'o': h, 'key': 'atype', 'val': lit(dt, [n], data), 'via': 'view', 'hostile': True}
     if kind in ('symget', 'symset', 'massget', 'massset', 'snatypes', 'satypes', 'scomp', 'sstr', 'sdf', 'spget',
-                'spgeta', 'spset', 'spseta', 'sext', 'ixget', 'ixset', 'sdcopy', 'spkeys', 'pbcset'):
+                'spgeta', 'spset', 'spseta', 'sext', 'ixget', 'ixset', 'sdcopy', 'spkeys', 'pbcset', 'sinfo'):
         cands = [x for x in S if OS[x].atoms_h in A and O[OS[x].atoms_h].n > 0]
         if not cands:
             return {'op': 'pkeys', 'o': h}
@@ -2368,6 +2449,13 @@ def gen_valid_op(rng, W, O, OS, k):
         cls, trail, _ = o.meta[key]
         if rng.random() < 0.2:
             ix, cnt = None, n
+            fresh = [kk for kk in KEYS if kk not in o.meta]
+            if fresh and not scale and rng.random() < 0.3:
+                # prop(key, value=...) on a NEW key stores a copy of the caller's array under that name
+                cls, trail = rng.choice(['i', 'f', 'b', 's']), rng.choice(TRAILS)
+                v = gen_lit(rng, cls, [n] + trail)
+                return {'op': kind, ('o' if kind == 'pset' else 's'): (h if kind == 'pset' else sh), 'key': fresh[0],
+                        'ix': None, 'val': v, **({'scale': False} if kind == 'spset' else {})}
         else:
             ix = gen_valid_index(rng, n)
             cnt = len(o_positions(n, ix))
@@ -2448,10 +2536,6 @@ def gen_valid_op(rng, W, O, OS, k):
         if rng.random() < 0.5:
             v = gen_lit(rng, dt, [nt + rng.choice([0, 0, 1])] + trail, key)
             return {'op': 'patype', 'o': h, 'key': key, 'val': v, 't': None}
-        if key not in o.meta and trail == [3] and n != 3:
-            trail = []      # zeros_like(value) of a 3-vector is only a per-atom column when natoms == 3
-        if key not in o.meta and trail:
-            trail = []
         v = gen_lit(rng, dt, trail, key)
         return {'op': 'patype', 'o': h, 'key': key, 'val': v, 't': rng.randint(1, nt)}
     if kind == 'exti':
@@ -2471,12 +2555,16 @@ def gen_valid_op(rng, W, O, OS, k):
             val = ['a', rng.choice(donors)]
         else:
             val = ['i', rng.choice([0, 1, 2])]
-        return {'op': 'sext', 's': sh, 'value': val, 'scale': scale,
+        return {'op': 'sext', 's': sh, 'value': val, 'scale': scale, 'safecopy': rng.random() < 0.2,
                 'symbols': gen_syms(rng, 0, 4) if rng.random() < 0.3 else None, 'id': k}
     if kind == 'dcopy':
         return {'op': 'dcopy', 'o': h, 'id': k}
     if kind == 'natypes':
         return {'op': 'natypes', 'o': h}
+    if kind == 'ainfo':
+        return {'op': 'ainfo', 'o': h}
+    if kind == 'sinfo':
+        return {'op': 'sinfo', 's': sh}
     if kind == 'df':
         return {'op': 'df', 'o': h}
     if kind == 'sdf':
@@ -2692,6 +2780,16 @@ def matrix_histories(rng, refusals=True):
     out.append(('sdcopy', [base, dict(mksys, masses=[1.5, None]), {'op': 'sdcopy', 's': 's1', 'id': 3},
                            {'op': 'pset', 'o': 'a0', 'key': 'atype', 'ix': ['I', 0], 'val': lit('i', [], [5])},
                            {'op': 'sdcopy', 's': 's1', 'id': 4}, {'op': 'massget', 's': 's4'}, {'op': 'symget', 's': 's3'}]))
+    for sc in (False, True):
+        for cp in (False, True):
+            if not (sc or cp):
+                continue
+            out.append((f'mksys:scale={sc}:safecopy={cp}',
+                        [base, dict(mksys, scale=sc, safecopy=cp), {'op': 'spget', 's': 's1', 'key': 'pos', 'ix': None},
+                         {'op': 'spget', 's': 's1', 'key': 'pos', 'ix': None, 'scale': True},
+                         {'op': 'pset', 'o': 'a0', 'key': 'p0', 'ix': ['I', 1], 'val': lit('i', [], [77])},
+                         {'op': 'spget', 's': 's1', 'key': 'p0', 'ix': None}, {'op': 'pget', 'o': 'a0', 'key': 'pos', 'ix': None}]))
+    out.append(('new:safecopy', [dict(base, safecopy=True), {'op': 'pget', 'o': 'a0', 'key': 'p1', 'ix': None}]))
     for d_as in ('a', 'i'):
         for scale in (False, True):
             if d_as == 'i' and scale:
@@ -2778,10 +2876,16 @@ def run_oracle_history(ops_or_gen, rng=None, length=0, ctx=None):
             if op['op'] in ('df', 'sdf'):
                 check_df(op, W.last_obs, O[op['o']] if op['op'] == 'df' else O[OS[op['s']].atoms_h],
                          None if op['op'] == 'df' else OS[op['s']].box)
-            if op['op'] in OBSERVERS or op['op'] == 'natypes':
+            if op['op'] in OBSERVERS or op['op'] in ('natypes', 'ainfo', 'sinfo'):
                 check_observed(op, rep, out)
                 out = None
             if op['op'] in ('pget', 'spget'):
+                ho = O[op['o'] if 'o' in op else OS[op['s']].atoms_h]
+                ix = op.get('ix')
+                want_shape = ([] if ix is not None and ix[0] == 'I' else [len(out)]) + list(ho.meta[op['key']][1])
+                if list(_np().shape(W.last_out)) != want_shape:
+                    raise Violation('shape:pget', f"prop({op['key']!r}, {ix}) returned shape {list(_np().shape(W.last_out))}; "
+                                    f'one entry per selected atom is shape {want_shape}')
                 got = real_rows(_np().asarray(W.last_out).reshape((len(out),) + (-1,))) if len(out) else []
                 if [tuple(r) for r in got] != [tuple(r) for r in out]:
                     raise Violation('values:pget', f"prop({op['key']!r}, {op.get('ix')}) returned {got}, record model {out}")
@@ -2790,6 +2894,11 @@ def run_oracle_history(ops_or_gen, rng=None, length=0, ctx=None):
             return ops, v
         except Inexact:
             return ops, None
+        except cm.InfraError:
+            raise
+        except Exception as e:      # noqa: BLE001 - evaluating a clause on a broken object is an observation, not a crash
+            return ops, Violation('observation-raised:' + op['op'],
+                                  f"evaluating the property's clauses after {op['op']} raised {type(e).__name__}: {e}")
         if not fixed and closing is None:
             schedule_obs(rng, W, op, nmass=lambda x: (max(len(OS[x].symbols), o_natypes(O[OS[x].atoms_h]))
                                                       if OS[x].atoms_h in W.atoms and O[OS[x].atoms_h].n > 0 else None))
